@@ -367,6 +367,12 @@ func (e *exprCtx) expr(v ssa.Value) string {
 	case *ssa.Field:
 		return e.expr(x.X) + "." + fieldName(x.X.Type(), x.Field)
 	case *ssa.IndexAddr:
+		// x[:k][i] addresses x[i] (the reslice only narrows what may be indexed; bounds are the prover's business)
+		if sl, ok := x.X.(*ssa.Slice); ok && sl.Low == nil && sl.Max == nil {
+			if _, isStr := sl.X.Type().Underlying().(*types.Basic); !isStr {
+				return e.expr(sl.X) + "[" + e.expr(x.Index) + "]"
+			}
+		}
 		return e.expr(x.X) + "[" + e.expr(x.Index) + "]"
 	case *ssa.Index:
 		return e.expr(x.X) + "[" + e.expr(x.Index) + "]"
